@@ -300,3 +300,93 @@ func hygiene(gen *ast.File) string {
 	sort.Strings(names)
 	return "inscope:" + strings.Join(names, ",")
 }
+
+var reJobVar = regexp.MustCompile(`^(task|pred)\d+$`)
+
+// sharedFields inspects every generated closure for fields of the generated task / predicate
+// records that are plainly assigned inside a job closure (code that runs on a scheduler worker) and
+// read in one of the closure's deferred functions (code that runs on the caller's goroutine when the
+// directive returns — also when it returns early, while jobs are still running).  Such a field is a
+// data race of the generated code with itself; the records' `ran` flags are atomics updated through
+// method calls and do not count.  Returns "ok" or "shared:<fields>".
+func sharedFields(gen *ast.File) string {
+	bad := map[string]bool{}
+	ast.Inspect(gen, func(n ast.Node) bool {
+		if !isGeneratedCall(n) {
+			return true
+		}
+		body := n.(*ast.CallExpr).Fun.(*ast.FuncLit).Body
+		deferred := map[*ast.FuncLit]bool{}
+		epilogue := map[string]bool{}
+		for _, st := range body.List {
+			ds, ok := st.(*ast.DeferStmt)
+			if !ok {
+				continue
+			}
+			fl, ok := ds.Call.Fun.(*ast.FuncLit)
+			if !ok {
+				continue
+			}
+			deferred[fl] = true
+			ast.Inspect(fl.Body, func(m ast.Node) bool {
+				if sel, ok := m.(*ast.SelectorExpr); ok {
+					if _, ok := sel.X.(*ast.Ident); ok {
+						epilogue[sel.Sel.Name] = true
+					}
+				}
+				return true
+			})
+		}
+		written := map[string]bool{}
+		var walk func(n ast.Node, inJob bool)
+		walk = func(n ast.Node, inJob bool) {
+			ast.Inspect(n, func(m ast.Node) bool {
+				switch x := m.(type) {
+				case *ast.FuncLit:
+					if deferred[x] {
+						return false
+					}
+					if !inJob {
+						walk(x.Body, true)
+						return false
+					}
+				case *ast.AssignStmt:
+					if inJob {
+						for _, l := range x.Lhs {
+							if sel, ok := l.(*ast.SelectorExpr); ok {
+								if id, ok := sel.X.(*ast.Ident); ok && reJobVar.MatchString(id.Name) {
+									written[sel.Sel.Name] = true
+								}
+							}
+						}
+					}
+				case *ast.IncDecStmt:
+					if inJob {
+						if sel, ok := x.X.(*ast.SelectorExpr); ok {
+							if id, ok := sel.X.(*ast.Ident); ok && reJobVar.MatchString(id.Name) {
+								written[sel.Sel.Name] = true
+							}
+						}
+					}
+				}
+				return true
+			})
+		}
+		walk(body, false)
+		for f := range written {
+			if epilogue[f] {
+				bad[f] = true
+			}
+		}
+		return true
+	})
+	if len(bad) == 0 {
+		return "ok"
+	}
+	var names []string
+	for k := range bad {
+		names = append(names, k)
+	}
+	sort.Strings(names)
+	return "shared:" + strings.Join(names, ",")
+}
